@@ -498,6 +498,16 @@ class NumpyModel:
         if root == "itertools" and last == "pairwise":
             xs = I.iterate(args[0], node)
             return list(zip(xs, xs[1:]))
+        if path in ("builtins.object.__setattr__", "builtins.setattr") and len(args) == 3 and isinstance(args[1], str):
+            obj, name_, val_ = args
+            if isinstance(obj, Record):
+                I.emit("setattr", (obj, name_, val_), node)
+                obj.attrs[name_] = val_
+                return None
+            if hasattr(obj, "attrs") and isinstance(getattr(obj, "attrs"), dict):
+                obj.attrs[name_] = val_
+                return None
+            raise Unsupported(f"setattr on {type(obj).__name__}", node)
         I.emit("extcall", (path, tuple(keyof(a) for a in args)), node)
         return I.opaque(f"external call {path}", node)
 
